@@ -383,7 +383,12 @@ def shard_fn(shard, nshards, n, seed):
             acc.add('nontrivial', index)
         explore_member(acc, names, text, seed)
         if index in (1, 40, 400, 4000):
-            acc.sample({'index': index, 'snippets': list(names)})
+            entries = ledgers.load(text)[0]
+            acc.sample({'index': index, 'snippets': list(names), 'body_text': text[len(ledgers.PREAMBLE):],
+                        'directives': len(entries), 'postings': len(R.postings_rows(entries)),
+                        'example_queries': ['SELECT * FROM #postings', 'SELECT cost_date FROM #postings',
+                                            "SELECT any_meta('b-str'), ... FROM #postings",
+                                            'SELECT account, open.date, close.date FROM #accounts']})
     if shard == nshards - 1:
         extras(acc, seed)
     return acc
